@@ -292,7 +292,78 @@ def chunk(idx, items):
     return part
 
 
+def qf_chunk(idx, items):
+    """A bare quadratic form x'Qx with a NON-symmetric Q (= x'Sx for the symmetric part S, strictly convex) under sum(x) = 1:
+    x* = S^-1 1 / (1' S^-1 1) in closed form.  What the solver is handed must be f and its exact gradient 2 S x."""
+    import optyx
+    import optyx.solvers.scipy_solver as ss
+    from optyx.core.matrices import quadratic_form
+    part = {'violations': {}, 'counts': {}, 'evaluations': 0, 'traces_validated_against_impl': 0, 'nontrivial': set(), 'samples': [], 'extra': {}}
+    real = ss.minimize
+    for n, seed, m, sense in items:
+        rng = common.rng('C09qf/%d/%d' % (n, seed))
+        A = np.array([[rng.uniform(-1, 1) for _ in range(n)] for _ in range(n)])
+        S = A @ A.T + n * np.eye(n)
+        K = np.array([[0.0] * n for _ in range(n)])
+        for i in range(n):
+            for j in range(i + 1, n):
+                K[i, j] = rng.uniform(0.5, 2.0)
+                K[j, i] = -K[i, j]
+        Q = S + K
+        one = np.ones(n)
+        xs = np.linalg.solve(S, one)
+        xs = xs / (one @ xs)
+        fstar = float(xs @ S @ xs)
+        x = optyx.VectorVariable('x', n, lb=-5, ub=5)
+        qf = quadratic_form(x, Q.copy())
+        p = optyx.Problem()
+        (p.minimize(qf) if sense == 'min' else p.maximize(-qf))
+        p.subject_to(x.sum().eq(1.0))
+        cap = []
+
+        def capture(fun, x0, **kw):
+            cap.append(dict(kw, fun=fun))
+            return real(fun, x0, **kw)
+        ss.minimize = capture
+        try:
+            with warnings.catch_warnings():
+                warnings.simplefilter('ignore')
+                sol = p.solve(method=m)
+        finally:
+            ss.minimize = real
+        site = 'Solve(%s;bare x\'Qx, Q not symmetric;eq;%s)' % (m, sense)
+        part['evaluations'] += 1
+        part['traces_validated_against_impl'] += 1
+        part['nontrivial'].add('%d/%d/%s/%s' % (n, seed, m, sense))
+        ex = {'n': n, 'seed': seed, 'x_star': xs.tolist()}
+        if cap:
+            kw = cap[0]
+            for pt in (xs, xs + 0.3, np.arange(1, n + 1) / 3.0):
+                if abs(float(kw['fun'](pt)) - float(pt @ S @ pt)) > 1e-9 * (1 + abs(float(pt @ S @ pt))):
+                    pviolation(part, site, 'objective handed to the solver is not f (sign or value)', ex)
+                    break
+                if kw.get('jac') is not None and not np.allclose(np.asarray(kw['jac'](pt), dtype=float).reshape(-1), 2 * S @ pt, rtol=1e-9, atol=1e-9):
+                    pviolation(part, site, 'gradient handed to the solver is not the gradient of f', dict(ex, got=np.asarray(kw['jac'](pt), dtype=float).reshape(-1).tolist(), expected=(2 * S @ pt).tolist()))
+                    break
+                if kw.get('hess') is not None and not np.allclose(np.asarray(kw['hess'](pt), dtype=float), 2 * S, rtol=1e-9, atol=1e-9):
+                    pviolation(part, site, 'Hessian handed to the solver is not the Hessian of f', ex)
+                    break
+        if sol.status.value != 'optimal':
+            pviolation(part, site, 'a strictly convex problem with a known optimum is reported %s' % sol.status.value, dict(ex, message=sol.message))
+            continue
+        xo = np.array([sol.values[v.name] for v in x])
+        if float(xo @ S @ xo) - fstar > 1e-6 * (1 + abs(fstar)) or abs(xo.sum() - 1) > 1e-6:
+            pviolation(part, site, 'returned point is not the known optimum', dict(ex, got=xo.tolist()))
+        want = fstar if sense == 'min' else -fstar
+        if abs(sol.objective_value - (float(xo @ S @ xo) if sense == 'min' else -float(xo @ S @ xo))) > 1e-7 * (1 + abs(want)):
+            pviolation(part, site, 'reported objective value is not the user objective at the returned point', ex)
+    return part
+
+
 def run(report, tier):
+    qitems = [(n, sd, m, sn) for n in (2, 3, 4) for sd in range(3 if tier == 'quick' else 20) for m in ('auto', 'SLSQP', 'trust-constr') for sn in ('min', 'max')]
+    for part in histrun.parallel(qf_chunk, qitems, chunk=6):
+        report.merge(part)
     structs = load_structures(report)
     for s in structs:
         TABLE[skey(s['st'])] = s['pred']
@@ -318,5 +389,6 @@ def run(report, tier):
              '(thorough) numbers are instantiated around a manufactured KKT point; the arguments captured at the minimize seam (method, x0, '
              'bounds, fun / jac / hess and constraint fun / jac at probe points) are compared with the contract and hand-written NumPy '
              'callables; then the same SciPy method is called directly on those callables from the same x0 and, when it converges, optyx '
-             'must report OPTIMAL at least as close to the known optimum.',
+             'must report OPTIMAL at least as close to the known optimum. Plus a bare quadratic form with a non-symmetric matrix under sum(x) = 1 (closed-form optimum): '
+             'objective / gradient / Hessian at the seam and the result, for minimise and maximise of the negation.',
         exhaustive=False)
